@@ -1,5 +1,5 @@
 #!/bin/bash
-# tools/seedlanes.sh [lanes=4] [pattern=*]
+# tools/seedlanes.sh [lanes=4] [pattern=* | file with seed ids]
 # Re-runs every kept seeded change against the quick tier of its target check(s), in parallel lanes.
 # Each lane has its own git worktree of /repo and its own copy of /verif whose engine module
 # points at that worktree, so /repo and /verif themselves are not touched. Results:
@@ -8,7 +8,8 @@ set -u
 N=${1:-4}; PAT=${2:-*}
 export GOFLAGS=-mod=mod GOPROXY=off
 L=/var/tmp/lanes; rm -rf $L; mkdir -p $L
-ls -d /verif/seeded/$PAT | sort > $L/all.txt
+if [ -f "$PAT" ]; then sed 's|^|/verif/seeded/|' "$PAT" > $L/all.txt   # a file with one seed id per line
+else ls -d /verif/seeded/$PAT | sort > $L/all.txt; fi
 for i in $(seq 1 $N); do
   mkdir -p $L/$i
   git -C /repo worktree add -q --detach $L/$i/repo HEAD
